@@ -5,6 +5,8 @@ import (
 	"fmt"
 	"sort"
 
+	"github.com/vedadiyan/genql"
+
 	"verifharness/internal/fw"
 	"verifharness/internal/gen"
 	"verifharness/internal/ref"
@@ -12,7 +14,7 @@ import (
 )
 
 var c02Forced = []string{"bin.plus", "bin.minus", "bin.mult", "bin.div", "bin.intdiv", "bin.mod", "bin.bitand", "bin.bitor", "bin.bitxor", "bin.shl", "bin.shr",
-	"un.minus", "un.tilde", "un.bang", "case.else", "case.noelse", "null.operand", "item.star", "ref.path", "ref.path.bare", "ref.missing", "from.alias", "where"}
+	"un.minus", "un.tilde", "un.bang", "case.else", "case.noelse", "null.operand", "item.star", "ref.path", "ref.path.bare", "ref.missing", "from.alias", "where", "opt.pg"}
 
 func init() {
 	fw.Register(&fw.Prop{
@@ -113,6 +115,15 @@ func c02Proj(c *fw.Case) {
 	}
 	var feats []string
 	ro := gen.RenderOpts{Quote: gen.Quoting(c.Intn(2)), StrStyle: c.Intn(2), Features: &feats, Qualifier: alias, BarePaths: force == "ref.path.bare" || c.Chance(0.3)}
+	// a share of the cases is spelled with double-quoted identifiers and run
+	// under PostgresEscapingDialect (the hostile literals hold quotes of every
+	// kind and backslashes): the values are what they are without the option
+	var opts []genql.QueryOption
+	if force == "opt.pg" || (force == "" && c.Chance(0.12)) {
+		ro.Quote = gen.QDouble
+		opts = append(opts, genql.PostgresEscapingDialect())
+		feats = append(feats, "opt.pg")
+	}
 	sql := "SELECT " + gen.RenderItems(items, ro) + " FROM t1"
 	if alias != "" {
 		sql += " " + alias
@@ -179,7 +190,7 @@ func c02Proj(c *fw.Case) {
 		feats = append(feats, "nullresult", "null.operand")
 	}
 	doc := DocOf(t)
-	o := Run(doc, sql)
+	o := Run(doc, sql, opts...)
 	c.Feature(feats...)
 	c.Sample(map[string]any{"sql": sql, "rows_in": len(t.Rows), "rows_out": len(want), "first_expected": first(want)})
 	detail := func() map[string]any {
@@ -214,7 +225,7 @@ func c02Proj(c *fw.Case) {
 	// the same query once more on the very same document object: a first run
 	// must not have rearranged the caller's table
 	if c.Chance(0.3) {
-		o2 := Run(doc, sql)
+		o2 := Run(doc, sql, opts...)
 		if !o2.OK() || !(len(o2.Rows) == 0 && len(want) == 0) && !val.SameSeq(o2.Rows, want) {
 			d := detail()
 			d["second_run"] = o2.Describe()
